@@ -214,6 +214,9 @@ func runWorker(s *spec.Spec, logPath string) (*spec.Result, error) {
 
 var driverKill = 150 * time.Second
 
+// confirmEnv: how a suspected NO_PROGRESS is confirmed (and replayed): alone, ten times the per-call step budget, 600 s
+var confirmEnv = []string{"VERIF_WATCHDOG_S=600", "VERIF_BUDGET_X=10"}
+
 // workerEnv is added to the environment of every worker (e.g. a shorter stuck-call watchdog while shrinking).
 var workerEnv []string
 
@@ -431,13 +434,13 @@ func check(p *propDef, tier string) int {
 		if i >= 2 || haveNew {
 			break // a violation is already in hand; the stuck runs add nothing
 		}
-		fmt.Printf("vsim: run seed=%d run=%d reported a call that did not return (%s); re-running it alone with a 90 s limit\n", o.seed, o.run, o.r.Violation.Detail["call"])
-		r, err := runWorkerEnv(o.s, "", "VERIF_WATCHDOG_S=90")
+		fmt.Printf("vsim: run seed=%d run=%d reported a call that did not return (%s); re-running it alone with ten times the step budget and a 600 s limit\n", o.seed, o.run, o.r.Violation.Detail["call"])
+		r, err := runWorkerEnv(o.s, "", confirmEnv...)
 		if err != nil {
 			internal = append(internal, outcome{run: o.run, seed: o.seed, s: o.s, err: err})
 			continue
 		}
-		if r.Status == "stuck" {
+		if r.Status == "stuck" || (r.Status == "violation" && r.Violation != nil && r.Violation.Class == "NO_PROGRESS") {
 			r.Status = "violation"
 			o.r = r
 			ag.add(o)
@@ -461,7 +464,7 @@ func check(p *propDef, tier string) int {
 			break
 		}
 		fmt.Printf("vsim: run seed=%d run=%d was slow outside any library call; re-running it alone with a 600 s limit\n", o.seed, o.run)
-		r, err := runWorkerEnv(o.s, "", "VERIF_WATCHDOG_S=600")
+		r, err := runWorkerEnv(o.s, "", confirmEnv...)
 		if err != nil || r.Status == "slow" || r.Status == "internal" {
 			if err == nil {
 				err = fmt.Errorf("slow run did not finish alone within 600 s: %s", r.Internal)
@@ -664,7 +667,11 @@ func replayFile(path string) int {
 	registerProps()
 	build(false)
 	defer cleanup()
-	r, err := runWorker(rf.Spec, os.Getenv("VERIF_EVENTLOG"))
+	var env []string
+	if rf.Violation != nil && rf.Violation.Class == "NO_PROGRESS" {
+		env = confirmEnv
+	}
+	r, err := runWorkerEnv(rf.Spec, os.Getenv("VERIF_EVENTLOG"), env...)
 	if err != nil {
 		die2("replay: %v", err)
 	}
